@@ -1212,6 +1212,21 @@ def gen_derived(tree, out, report):
                 "    out_keys.mapM (fun k => do let v ← alookup all k; pure (k, v))\n")
     attempt("request_dispatch", t_dispatch)
 
+    def t_small():
+        f1 = top_func(tree, "build_computed_value_output"); f2 = top_func(tree, "build_function_output")
+        if [a.arg for a in f1.args.args] != ["request", "name"] or [ast.unparse(st) for st in f1.body] != ["return Function(lambda x: x[name], [ModelVariable('computed_values')])"]:
+            raise Untranslatable("build_computed_value_output is not the expected text")
+        if [a.arg for a in f2.args.args] != ["request"] or [ast.unparse(st) for st in f2.body] != ["func = request['func']", "source_names = request['sources']",
+                                                                                                    "inputs = [local(s) for s in source_names]", "return Function(func, inputs)"]:
+            raise Untranslatable("build_function_output is not the expected text")
+        return ("/-- `derived_outputs.py::build_computed_value_output` (pinned): `lambda x: x[name]` applied to the computed-value series of the run -/\n"
+                "def computed_value_output (computed_values : List (String × List α)) (name : String) : Option (List α) := alookup computed_values name\n\n"
+                "/-- `derived_outputs.py::build_function_output` (pinned; the legacy `func` request type): the inputs are the local series of the listed\n"
+                "sources, in the listed order (`none`: a source has no value yet) -/\n"
+                "def function_output_inputs (done : List (String × List α)) (source_names : List String) : Option (List (List α)) :=\n"
+                "  source_names.mapM (fun s => alookup done s)\n")
+    attempt("small_builders", t_small)
+
 
 
 # ------------------------------------------------------------------------------------------------ initial population
